@@ -372,3 +372,101 @@ Proof.
   pose proof (read_eq s I r) as E. destruct r; exact E.
 Qed.
 End Reads.
+
+(* ---------- each repair is needed: witnesses on the model of the code as shipped ---------- *)
+Definition no_rx : bytes -> option (bytes -> bool) := fun _ => None.
+Definition fa : bytes := [97].   (* "a" *)
+Definition fb : bytes := [98].   (* "b" *)
+Definition u1 : bytes := [117; 49].
+Definition u2 : bytes := [117; 50].
+Definition t0 : bytes := [84].
+Definition post_a (id : N) (v : json) (u : bytes) : op :=
+  OpPost id [(s_bodyid, JNum (Z.of_N id)); (fa, v)] true u [[]] false t0.
+Definition post_b (id : N) (v : json) (u : bytes) : op :=
+  OpPost id [(s_bodyid, JNum (Z.of_N id)); (fb, v)] true u [[]] false t0.
+
+Fixpoint nlist_eqb (a b : list N) : bool :=
+  match a, b with [], [] => true | x :: a', y :: b' => (x =? y) && nlist_eqb a' b' | _, _ => false end.
+
+(* mem and store answers of variant V after history h *)
+Definition both (V : variant) (h : list op) (r : rreq) : option (rres * rres) :=
+  match run V init_state h with
+  | Ok s => Some (read_mem no_rx V (st_mem s) (st_mmeta s) r, read_store no_rx V (st_head s) r)
+  | _ => None
+  end.
+
+(* (a) deleteBodyID: ids 10..80, DELETE 10, 30, 80, 50 — and already POST 10, POST 20, DELETE 10 *)
+Definition h_delete8 : list op :=
+  map (fun id => post_a id (JNum 1) u1) [10; 20; 30; 40; 50; 60; 70; 80] ++ map OpDelete [10; 30; 80; 50].
+Definition h_delete2 : list op := [post_a 10 (JNum 1) u1; post_a 20 (JNum 1) u1; OpDelete 10].
+
+Lemma shipped_delete_refuted :
+  both shipped h_delete8 RKeys = Some (XIds [10; 20; 30; 40; 50; 60; 70], XIds [20; 40; 60; 70])
+  /\ both shipped h_delete2 RKeys = Some (XIds [10; 20], XIds [20])
+  /\ both shipped h_delete2 (RKeyRange [49] [57; 57]) = Some (XIds [10; 20], XIds [20]).
+Proof. vm_compute. repeat split. Qed.
+Lemma only_delete_unrepaired_refuted :
+  both (mkVar false true true true true true) h_delete2 RKeys = Some (XIds [10; 20], XIds [20]).
+Proof. vm_compute. reflexivity. Qed.
+
+(* (b) POST {"a":1} then POST {"a":null}: the counter of "a" stays at 1 in memory *)
+Definition h_null : list op := [post_a 10 (JNum 1) u1; post_a 10 JNull u2].
+Definition cnt_of (f : bytes) (r : rres) : option Z :=
+  match r with XCounts l => @aget bytes Z bytes_eqb f l | _ => None end.
+Lemma shipped_counter_refuted :
+  option_map (fun p => (cnt_of fa (fst p), cnt_of fa (snd p))) (both shipped h_null RFieldCounts) = Some (Some 1%Z, None)
+  /\ option_map (fun p => (cnt_of fa (fst p), cnt_of fa (snd p))) (both (mkVar true false true true true true) h_null RFieldCounts) = Some (Some 1%Z, None).
+Proof. vm_compute. split; reflexivity. Qed.
+
+(* (e) POST 10 {"a":1}, POST 20 {"b":1}, DELETE 10: "a" is reported with count 0, fields lists "" *)
+Definition h_zero : list op := [post_a 10 (JNum 1) u1; post_b 20 (JNum 1) u1; OpDelete 10].
+Lemma zero_counter_refuted :
+  let V := mkVar true true false true true true in
+  option_map (fun p => (cnt_of fa (fst p), cnt_of fa (snd p))) (both V h_zero RFieldCounts) = Some (Some 0%Z, None)
+  /\ exists l l', both V h_zero RFields = Some (XNames l, XNames l') /\ In [] l /\ ~ In [] l'.
+Proof.
+  split; [vm_compute; reflexivity|]. eexists; eexists. split; [vm_compute; reflexivity|].
+  split; [simpl; tauto|]. simpl. intuition discriminate.
+Qed.
+
+(* (d) query?fields=b and keyrangevalues?fields=a_user on the store path *)
+Definition h_two : list op := [post_a 10 (JNum 1) u1; post_b 10 (JNum 2) u2].
+Lemma store_select_refuted :
+  let V := mkVar true true true false true true in
+  both V h_two (RQuery [[(fa, JNum 1)]] false [fb] (mkShow false false))
+    = Some (XObjs [[(s_bodyid, JNum 10); (fb, JNum 2)]],
+            XObjs [[(s_bodyid, JNum 10); (fb, JNum 2); (fa, JNum 1)]])
+  /\ both V h_two (RKeyRangeValues [48] [97] [fuser fa] (mkShow false false))
+    = Some (XKVs [(10, [(s_bodyid, JNum 10); (fuser fa, JStr u1)])], XKVs [(10, [(s_bodyid, JNum 10)])]).
+Proof. vm_compute. split; reflexivity. Qed.
+
+(* (c) ids 5, 10, 100: keyrange/1/15 and keyrangevalues/1/15 *)
+Definition h_digits : list op := [post_a 5 (JNum 1) u1; post_a 10 (JNum 1) u1; post_a 100 (JNum 1) u1].
+Definition kv_ids (r : rres) : list N := match r with XKVs l => map fst l | XIds l => l | _ => [] end.
+Lemma store_range_refuted :
+  let V := mkVar true true true true false true in
+  option_map (fun p => (kv_ids (fst p), kv_ids (snd p))) (both V h_digits (RKeyRange [49] [49; 53])) = Some ([5; 10], [10])
+  /\ option_map (fun p => (kv_ids (fst p), kv_ids (snd p)))
+       (both V h_digits (RKeyRangeValues [49] [49; 53] [] (mkShow false false))) = Some ([5; 10], [10; 100]).
+Proof. vm_compute. split; reflexivity. Qed.
+
+(* (i) POST json_schema, commit, restart, newversion: GET json_schema on the child *)
+Definition h_schema : list op := [OpMetaPost 0 [123; 125]; OpCommit; OpReload; OpNewVersion].
+Lemma meta_reload_refuted :
+  both (mkVar true true true true true false) h_schema (RMeta 0) = Some (XBytes None, XBytes (Some [123; 125])).
+Proof. vm_compute. reflexivity. Qed.
+
+(* a non-string *_time value panics inside storeAndUpdate (with the memdb mutex held) *)
+Lemma nonstring_time_panics V :
+  run V init_state [OpPost 1 [(s_bodyid, JNum 1); (ftime fa, JNum 5)] true u1 [[]] false t0] = Panic.
+Proof. destruct V as [[] [] [] [] [] []]; vm_compute; reflexivity. Qed.
+
+(* non-vacuity of mem_eq_store: a history with every kind of request that runs to completion *)
+Definition h_sample : list op :=
+  [post_a 10 (JNum 1) u1; post_b 10 (JStr [120]) u2; post_a 7 (JArr [JNum 1; JNum 2]) u1;
+   OpPostKVs [mkKV 100 [(s_bodyid, JNum 100); (fa, JNull)] true t0; mkKV 5 [(s_bodyid, JNum 5)] true t0] u2 [fa] true;
+   OpMetaPost 1 [49]; OpDelete 7; OpCommit; OpPost 3 [(s_bodyid, JNum 3)] true u1 [[]] false t0;
+   OpNewVersion; OpReload; post_a 10 JNull u2; OpMetaDelete 1; OpDelete 100].
+Lemma sample_runs : exists s, run repaired init_state h_sample = Ok s /\ map fst (m_data (st_mem s)) = [5; 10]
+                              /\ length (st_parents s) = 1%nat.
+Proof. eexists. vm_compute. repeat split. Qed.
